@@ -270,6 +270,11 @@ def _case(draw: Any, args: dict) -> dict:
                     continue  # (a moved superclass referenced from its origin module is C11's open finding)
                 reexported.add(d["name"])
                 inits.setdefault("/".join([pkgname, *sub]), []).append(["from", "." + mname, d["name"], None])
+    # a type variable must not be named like a class or enum of the package (one name, two renaming rules under -nc:
+    # the relation check of C09 could not tell the references apart)
+    type_names = {d["name"] for m in modules for _o, d in gt.walk_decls(m["decls"]) if d["t"] in {"class", "enum"}}
+    for m in modules:
+        m["decls"] = [d for d in m["decls"] if not (d["t"] == "func" and any(p["ann"] and p["ann"][0] == "tvar" and p["ann"][1] in type_names for p in d["params"]))]
     return {"pkg": gt.package(pkgname, modules, inits), "options": {"nc": draw(st.booleans()), "docstyle": style}}
 
 
